@@ -2,30 +2,454 @@ package main
 
 import "math/rand"
 
+// Program families (DESIGN.md §3.3). Every random choice comes from r, which is seeded from
+// (VERIF_SEED, execution index), so a program is reproducible from the seed alone; replays carry
+// the program itself.
 var families = map[string]func(r *rand.Rand, i int) *Program{
-	"basic": genBasic,
+	"basic":     genBasic,
+	"lifecycle": genLifecycle,
+	"barriers":  genBarriers,
+	"cancel":    genCancel,
+	"batch":     genBatch,
+	"pool":      genPool,
+	"tune":      genTune,
+	"pause":     genPause,
+	"status":    genStatus,
+	"counts":    genCounts,
+	"outcomes":  genOutcomes,
+	"gate":      genGate,
+	"lifeseq":   genLifeSeq,
+	"order":     genOrder,
+	"multiq":    genMultiQ,
+}
+
+// order: a paused worker is loaded by one producer, then resumed: the execution order must be the
+// queue's order (FIFO, or priority then FIFO), also after purge-and-reuse.
+func genOrder(r *rand.Rand, i int) *Program {
+	g := &gen{r: r}
+	p := &Program{Kind: kinds(r), Conc: 1, Queues: []string{qkind(r)}, Paused: true, Tag: "ordered", WFYields: r.Intn(2)}
+	if r.Intn(4) == 0 {
+		p.Conc = 2 + r.Intn(2)
+	}
+	var th []Op
+	n := 2 + r.Intn(7)
+	for j := 0; j < n; j++ {
+		a := g.add()
+		a.Prio = []int{-9223372036854775808, -1, 0, 0, 1, 1, 2, 9223372036854775807}[r.Intn(8)]
+		th = append(th, a)
+	}
+	th = append(th, Op{Op: "resume"}, Op{Op: "wuf"})
+	p.Threads = [][]Op{th}
+	return p
+}
+
+// multiq: several queues of mixed kinds bound to one paused worker, loaded, then resumed at
+// concurrency 1: the (queue, job) sequence must follow the configured strategy.
+func genMultiQ(r *rand.Rand, i int) *Program {
+	g := &gen{r: r}
+	p := &Program{Kind: "plain", Conc: 1, Paused: true, Tag: "ordered", Strategy: r.Intn(3)}
+	nq := 2 + r.Intn(3)
+	ks := []string{"fifo", "prio", "pers", "persprio", "fifo", "prio"}
+	for q := 0; q < nq; q++ {
+		p.Queues = append(p.Queues, ks[r.Intn(len(ks))])
+	}
+	var th []Op
+	n := 2 + r.Intn(8)
+	for j := 0; j < n; j++ {
+		a := g.add()
+		a.Q = r.Intn(nq)
+		a.Prio = r.Intn(3)
+		th = append(th, a)
+	}
+	if r.Intn(3) == 0 {
+		th = append(th, Op{Op: "counts"})
+	}
+	th = append(th, Op{Op: "resume"}, Op{Op: "wuf"}, Op{Op: "counts"})
+	p.Threads = [][]Op{th}
+	return p
 }
 
 func kinds(r *rand.Rand) string { return []string{"plain", "err", "result"}[r.Intn(3)] }
+func qkind(r *rand.Rand) string { return []string{"fifo", "prio"}[r.Intn(2)] }
+
+type gen struct {
+	r *rand.Rand
+	k int
+	b int
+}
+
+func (g *gen) add() Op {
+	op := Op{Op: "add", K: g.k, Prio: g.r.Intn(3) - 1}
+	g.k++
+	return op
+}
+
+func (g *gen) adds(n int) []Op {
+	var ops []Op
+	for i := 0; i < n; i++ {
+		ops = append(ops, g.add())
+	}
+	return ops
+}
 
 func genBasic(r *rand.Rand, i int) *Program {
-	p := &Program{Kind: kinds(r), Conc: 1 + r.Intn(3), Queues: []string{[]string{"fifo", "prio"}[r.Intn(2)]}, WFYields: r.Intn(3)}
+	g := &gen{r: r}
+	p := &Program{Kind: kinds(r), Conc: 1 + r.Intn(3), Queues: []string{qkind(r)}, WFYields: r.Intn(3)}
 	nt := 1 + r.Intn(2)
-	k := 0
 	for t := 0; t < nt; t++ {
 		var th []Op
 		n := 1 + r.Intn(4)
 		for j := 0; j < n; j++ {
-			th = append(th, Op{Op: "add", K: k, Prio: r.Intn(3)})
+			a := g.add()
+			th = append(th, a)
 			if r.Intn(3) == 0 {
-				th = append(th, Op{Op: "jwait", K: k})
+				th = append(th, Op{Op: "jwait", K: a.K})
 			}
-			k++
 		}
 		if r.Intn(2) == 0 {
 			th = append(th, Op{Op: "wuf"})
 		}
 		p.Threads = append(p.Threads, th)
+	}
+	return p
+}
+
+var lifeOps = []string{"pause", "pauseandwait", "resume", "stop", "waitandstop", "restart", "tune", "bind", "wuf", "status"}
+
+// lifecycle: one or two control threads racing with a producer; optional context, optional expiry.
+func genLifecycle(r *rand.Rand, i int) *Program {
+	g := &gen{r: r}
+	p := &Program{Kind: kinds(r), Conc: 1 + r.Intn(3), Queues: []string{qkind(r)}, WFYields: r.Intn(2), Ctx: r.Intn(4) == 0}
+	if r.Intn(4) == 0 {
+		p.ExpiryNs = 1000
+		p.MaxTicks = 3
+		p.TickBias = 6
+	}
+	var ctl []Op
+	n := 1 + r.Intn(4)
+	for j := 0; j < n; j++ {
+		o := lifeOps[r.Intn(len(lifeOps))]
+		op := Op{Op: o}
+		if o == "tune" {
+			op.N = 1 + r.Intn(4)
+		}
+		if o == "bind" {
+			op.N = r.Intn(2)
+		}
+		ctl = append(ctl, op)
+	}
+	if p.Ctx && r.Intn(2) == 0 {
+		ctl = append(ctl, Op{Op: "cancelctx"})
+	}
+	prod := g.adds(1 + r.Intn(3))
+	p.Threads = [][]Op{ctl, prod}
+	if r.Intn(3) == 0 {
+		p.Threads = append(p.Threads, []Op{{Op: lifeOps[r.Intn(6)]}})
+	}
+	return p
+}
+
+// lifeseq: a single thread of lifecycle calls (for the reference state machine of C14), followed
+// by a probe job.
+func genLifeSeq(r *rand.Rand, i int) *Program {
+	g := &gen{r: r}
+	p := &Program{Kind: kinds(r), Conc: 1 + r.Intn(2), WFYields: 0, Ctx: r.Intn(3) == 0, Tag: "seq"}
+	if r.Intn(3) > 0 {
+		p.Queues = []string{qkind(r)}
+	}
+	if r.Intn(4) == 0 {
+		p.ExpiryNs = 1000
+		p.MaxTicks = 2
+		p.TickBias = 8
+	}
+	var th []Op
+	if len(p.Queues) > 0 && r.Intn(2) == 0 {
+		th = append(th, g.adds(1+r.Intn(2))...)
+	}
+	n := 1 + r.Intn(5)
+	for j := 0; j < n; j++ {
+		o := lifeOps[r.Intn(8)]
+		op := Op{Op: o}
+		if o == "tune" {
+			op.N = 1 + r.Intn(3)
+		}
+		if o == "bind" {
+			op.N = r.Intn(2)
+		}
+		th = append(th, op, Op{Op: "status"})
+		if p.Ctx && r.Intn(6) == 0 {
+			th = append(th, Op{Op: "cancelctx"}, Op{Op: "waitidle"}, Op{Op: "status"})
+		}
+	}
+	// probe: bind a queue if none, submit one job, let everything settle, read the status
+	if len(p.Queues) == 0 {
+		th = append(th, Op{Op: "bind"}, Op{Op: "status"})
+	}
+	th = append(th, Op{Op: "waitidle"}, g.add(), Op{Op: "waitidle"}, Op{Op: "status"}, Op{Op: "counts"})
+	p.Threads = [][]Op{th}
+	return p
+}
+
+// barriers: barrier callers × submissions × cancellations × purge.
+func genBarriers(r *rand.Rand, i int) *Program {
+	g := &gen{r: r}
+	p := &Program{Kind: kinds(r), Conc: 1 + r.Intn(2), Queues: []string{qkind(r)}, WFYields: r.Intn(2)}
+	prod := g.adds(1 + r.Intn(3))
+	var extra []Op
+	for _, a := range prod {
+		switch r.Intn(5) {
+		case 0:
+			extra = append(extra, Op{Op: "jclose", K: a.K})
+		}
+	}
+	if r.Intn(4) == 0 {
+		extra = append(extra, Op{Op: "purge"})
+	}
+	bar := []string{"wuf", "pauseandwait", "stop", "waitandstop", "wuf", "wuf"}
+	th2 := []Op{{Op: bar[r.Intn(len(bar))]}}
+	if r.Intn(3) == 0 {
+		th2 = append(th2, Op{Op: "resume"})
+	}
+	p.Threads = [][]Op{append(prod, extra...), th2}
+	if r.Intn(3) == 0 {
+		p.Threads = append(p.Threads, []Op{{Op: bar[r.Intn(len(bar))]}})
+	}
+	if r.Intn(3) == 0 {
+		// a long-running job in flight while others are cancelled (the deterministic hang of §6)
+		p.Gate = true
+		p.Threads = append(p.Threads, []Op{{Op: "yield"}, {Op: "yield"}, {Op: "releaseall"}})
+	}
+	return p
+}
+
+// cancel: Close / Purge / queue Close racing dispatch and completion.
+func genCancel(r *rand.Rand, i int) *Program {
+	g := &gen{r: r}
+	p := &Program{Kind: kinds(r), Conc: 1 + r.Intn(2), Queues: []string{qkind(r)}, WFYields: r.Intn(3)}
+	prod := g.adds(2 + r.Intn(3))
+	var a, b []Op
+	for _, ad := range prod {
+		a = append(a, ad)
+		switch r.Intn(4) {
+		case 0:
+			a = append(a, Op{Op: "jclose", K: ad.K})
+		case 1:
+			b = append(b, Op{Op: "jclose", K: ad.K})
+		case 2:
+			b = append(b, Op{Op: "jwait", K: ad.K})
+		}
+		if r.Intn(6) == 0 {
+			b = append(b, Op{Op: "jclose", K: ad.K})
+		}
+	}
+	switch r.Intn(5) {
+	case 0:
+		b = append(b, Op{Op: "purge"})
+	case 1:
+		b = append(b, Op{Op: "qclose"})
+		a = append(a, g.add())
+	}
+	a = append(a, Op{Op: "wuf"})
+	p.Threads = [][]Op{a, b}
+	if r.Intn(3) == 0 {
+		p.Paused = true
+		p.Threads = append(p.Threads, []Op{{Op: "yield"}, {Op: "resume"}})
+	}
+	return p
+}
+
+// batch: AddAll with rejection, cancellation, purge; stream collection.
+func genBatch(r *rand.Rand, i int) *Program {
+	g := &gen{r: r}
+	p := &Program{Kind: kinds(r), Conc: 1 + r.Intn(3), Queues: []string{qkind(r)}, WFYields: r.Intn(2)}
+	n := r.Intn(5)
+	if r.Intn(6) == 0 {
+		n = 0
+	}
+	var ks, prios []int
+	for j := 0; j < n; j++ {
+		ks = append(ks, g.k)
+		prios = append(prios, r.Intn(3))
+		p.Outcomes = append(p.Outcomes, []int{0, 0, 1, 2}[r.Intn(4)])
+		g.k++
+	}
+	a := []Op{{Op: "addall", B: 0, Ks: ks, Prios: prios}}
+	if r.Intn(2) == 0 {
+		a = append(a, Op{Op: "gpending", B: 0})
+	}
+	if p.Kind != "plain" {
+		a = append(a, Op{Op: "gcollect", B: 0})
+	}
+	a = append(a, Op{Op: "gwait", B: 0}, Op{Op: "gpending", B: 0})
+	var b []Op
+	switch r.Intn(5) {
+	case 0:
+		b = append(b, Op{Op: "purge"})
+	case 1:
+		a = append([]Op{{Op: "qclose"}}, a...)
+	case 2:
+		b = append(b, Op{Op: "gpending", B: 0}, Op{Op: "gwait", B: 0})
+	}
+	p.Threads = [][]Op{a}
+	if len(b) > 0 {
+		p.Threads = append(p.Threads, b)
+	}
+	return p
+}
+
+// pool: idle expiry ticks, TunePool sequences, Stop/Restart cycles.
+func genPool(r *rand.Rand, i int) *Program {
+	g := &gen{r: r}
+	p := &Program{Kind: "plain", Conc: 1 + r.Intn(4), Queues: []string{"fifo"}, WFYields: r.Intn(2), MinIdle: []int{0, 1, 50, 100}[r.Intn(4)]}
+	if r.Intn(2) == 0 {
+		p.ExpiryNs = 1000
+		p.MaxTicks = 2 + r.Intn(4)
+		p.TickBias = 4 + r.Intn(6)
+	}
+	a := g.adds(2 + r.Intn(4))
+	var c []Op
+	for j := 0; j < 1+r.Intn(3); j++ {
+		switch r.Intn(5) {
+		case 0:
+			c = append(c, Op{Op: "tune", N: 1 + r.Intn(5)})
+		case 1:
+			c = append(c, Op{Op: "stop"}, Op{Op: "restart"})
+		case 2:
+			c = append(c, Op{Op: "restart"})
+		case 3:
+			c = append(c, Op{Op: "counts"})
+		case 4:
+			c = append(c, Op{Op: "wuf"}, Op{Op: "tune", N: 1 + r.Intn(5)})
+		}
+	}
+	if r.Intn(3) == 0 {
+		c = append(c, Op{Op: "stop"})
+	}
+	p.Threads = [][]Op{a, c}
+	return p
+}
+
+// tune: TunePool up/down under load with gated worker functions (in-flight counting).
+func genTune(r *rand.Rand, i int) *Program {
+	g := &gen{r: r}
+	p := &Program{Kind: "plain", Conc: 1 + r.Intn(3), Queues: []string{qkind(r)}, WFYields: 1 + r.Intn(2)}
+	a := g.adds(3 + r.Intn(4))
+	var c []Op
+	for j := 0; j < 1+r.Intn(3); j++ {
+		c = append(c, Op{Op: "tune", N: 1 + r.Intn(4)})
+		if r.Intn(3) == 0 {
+			c = append(c, Op{Op: "counts"})
+		}
+	}
+	if r.Intn(4) == 0 {
+		c = append(c, Op{Op: "bind", N: r.Intn(2)})
+	}
+	if r.Intn(4) == 0 {
+		c = append(c, Op{Op: "pause"}, Op{Op: "resume"})
+	}
+	p.Threads = [][]Op{a, c}
+	return p
+}
+
+// pause: Pause / PauseAndWait / Stop placed against the dispatcher under continuous submission.
+func genPause(r *rand.Rand, i int) *Program {
+	g := &gen{r: r}
+	p := &Program{Kind: kinds(r), Conc: 1 + r.Intn(2), Queues: []string{qkind(r)}, WFYields: r.Intn(2)}
+	a := g.adds(2 + r.Intn(4))
+	bar := []string{"pause", "pauseandwait", "stop", "pauseandwait"}
+	c := []Op{{Op: bar[r.Intn(len(bar))]}, {Op: "counts"}}
+	if r.Intn(2) == 0 {
+		c = append(c, Op{Op: "waitidle"}, Op{Op: []string{"resume", "restart"}[r.Intn(2)]})
+	}
+	p.Threads = [][]Op{a, c}
+	return p
+}
+
+// status: status samplers racing submission, dispatch and completion.
+func genStatus(r *rand.Rand, i int) *Program {
+	g := &gen{r: r}
+	p := &Program{Kind: kinds(r), Conc: 1 + r.Intn(2), Queues: []string{qkind(r)}, WFYields: 1 + r.Intn(2)}
+	var a, b []Op
+	for j := 0; j < 1+r.Intn(3); j++ {
+		ad := g.add()
+		a = append(a, ad, Op{Op: "jstatus", K: ad.K})
+		b = append(b, Op{Op: "jstatus", K: ad.K})
+		if r.Intn(2) == 0 {
+			a = append(a, Op{Op: "jwait", K: ad.K}, Op{Op: "jstatus", K: ad.K})
+		}
+		if r.Intn(2) == 0 {
+			b = append(b, Op{Op: "jstatus", K: ad.K}, Op{Op: "jwait", K: ad.K}, Op{Op: "jstatus", K: ad.K})
+		}
+	}
+	p.Threads = [][]Op{a, b}
+	return p
+}
+
+// counts: counter readers racing enqueue / dequeue / purge / completion.
+func genCounts(r *rand.Rand, i int) *Program {
+	g := &gen{r: r}
+	p := &Program{Kind: kinds(r), Conc: 1 + r.Intn(3), Queues: []string{qkind(r)}, WFYields: r.Intn(2)}
+	if r.Intn(3) == 0 {
+		p.Queues = append(p.Queues, qkind(r))
+	}
+	for j := 0; j < 8; j++ {
+		p.Outcomes = append(p.Outcomes, []int{0, 0, 1, 2}[r.Intn(4)])
+	}
+	a := g.adds(2 + r.Intn(4))
+	for j := range a {
+		a[j].Q = r.Intn(len(p.Queues))
+	}
+	var b []Op
+	for j := 0; j < 2+r.Intn(3); j++ {
+		if r.Intn(2) == 0 {
+			b = append(b, Op{Op: "counts"})
+		} else {
+			b = append(b, Op{Op: "qpending", Q: r.Intn(len(p.Queues))})
+		}
+	}
+	if r.Intn(4) == 0 {
+		b = append(b, Op{Op: "purge", Q: r.Intn(len(p.Queues))}, Op{Op: "qpending"})
+	}
+	p.Threads = [][]Op{a, b}
+	return p
+}
+
+// outcomes: value / error / panic per job; Result read several times by several goroutines.
+func genOutcomes(r *rand.Rand, i int) *Program {
+	g := &gen{r: r}
+	p := &Program{Kind: kinds(r), Conc: 1 + r.Intn(3), Queues: []string{qkind(r)}, WFYields: r.Intn(2), Errs: r.Intn(2) == 0}
+	var a, b []Op
+	n := 1 + r.Intn(4)
+	for j := 0; j < n; j++ {
+		p.Outcomes = append(p.Outcomes, r.Intn(3))
+		ad := g.add()
+		ad.NoID = r.Intn(4) == 0
+		a = append(a, ad)
+		a = append(a, Op{Op: "jresult", K: ad.K})
+		if r.Intn(2) == 0 {
+			b = append(b, Op{Op: "jresult", K: ad.K})
+		}
+		if r.Intn(3) == 0 {
+			a = append(a, Op{Op: "jresult", K: ad.K})
+		}
+	}
+	a = append(a, Op{Op: "wuf"}, Op{Op: "counts"})
+	p.Threads = [][]Op{a, b}
+	return p
+}
+
+// gate: worker functions block until released; checks min(pending, limit) parallelism.
+func genGate(r *rand.Rand, i int) *Program {
+	g := &gen{r: r}
+	p := &Program{Kind: "plain", Conc: 1 + r.Intn(3), Queues: []string{qkind(r)}, Gate: true}
+	a := g.adds(1 + r.Intn(5))
+	var c []Op
+	if r.Intn(2) == 0 {
+		c = append(c, Op{Op: "tune", N: 1 + r.Intn(4)})
+	}
+	p.Threads = [][]Op{a}
+	if len(c) > 0 {
+		p.Threads = append(p.Threads, c)
 	}
 	return p
 }
